@@ -1,4 +1,356 @@
-import DcVerif.Model.Ring
+import DcVerif.Lemmas.RingHB
+/-!
+# C05 — ring buffer slots: no overwrite before consumption, conflicting slot accesses ordered by happens-before,
+a producer a full ring ahead blocks (single-producer pipelines)
+
+Everything below holds for **every** ring size `n`, stage/handler topology (`K ≥ 1` stages, `h k ≥ 1` handlers), list of
+batch sizes (each ≥ 1), wait strategy (spin *and* blocking) and **every schedule** (`Ring.Reachable` / `HReachable`).
+
+* (a) `c05_no_lap_reachable` — arithmetic core: while the producer is about to write sequence `w` and any handler of any
+  stage is handling `i`: `i < w < i + n`, hence `w % n ≠ i % n` — they never touch the same slot.
+* (b) `c05_full_ring_blocks` / `c05_full_ring_blocks_run` — while the slowest last-stage cursor `c` has `c + n < end`, no
+  step of any thread moves the producer out of its gate loop (`gateCheck`/`gateLoad`) and nothing is written, along
+  every schedule; conversely `c05_gate_opens`: once every last-stage cursor has `end ≤ c + n`, the producer reaches its
+  first slot write after at most `ngate + 3` of its own steps.
+* (c) `c05_race_free_reachable` — happens-before (vector clocks of `Model/RingHB.lean`, DESIGN.md §5.4) with the memory
+  orderings **taken from the source** (`Gen.Orderings.seqSet` for every cursor store, `Gen.Orderings.seqGet` for every
+  cursor load, regenerated from `atomic_sequence_ordered.rs` on every run): before every slot access the obligations
+  R1–R4 hold. The two facts the proof needs about the orderings are `c05_orderings_used` (checked by evaluation): a
+  weakened ordering in the source breaks that theorem.
+* (d) `c05_relaxed_store_races`, `c05_relaxed_load_races` — the ordering table is load-bearing: with a `Relaxed` cursor
+  store (or load) a concrete schedule reaches a state in which the reader obligation fails.
+* (e) `c05_same_stage_unordered` — **topology hypothesis / known finding F9**: handlers of the *same* stage are not
+  ordered with each other (no sequence counter connects them within one lap). `RaceFree.reader` therefore claims
+  ordering against the producer (R1), against every handler of every *earlier* stage (R2) and against everybody's
+  access one lap earlier (R4) — not against same-stage handlers of the current lap. That is exactly property C05 when a
+  stage that contains a mutable handler contains no other handler: then every conflicting pair (write/write,
+  write/read, mutable-handler/any) is a pair covered by R1–R4. The safe builder API also accepts stages holding a
+  mutable handler *and* others; for those the pair (mutable handler, same-stage handler) on the same sequence is
+  conflicting and unordered — F9, exhibited by `c05_same_stage_unordered` in the model and by the driver's clock oracle
+  on the implementation's own events.
+
+Partial: single-producer sequencer only (the multi-producer sequencer is judged on implementation events by the
+driver); happens-before over an interleaving semantics stands in for the C11 memory model; the mutex / condvar /
+`is_done` edges are deliberately not used (fewer edges ⇒ harder to prove ⇒ sound).
+-/
 namespace C05
-theorem placeholder : True := trivial
+open Ring RingHB Gen.Orderings
+
+/-! ## (a) no lap -/
+
+theorem mod_ne_of_window {i w n : Nat} (h1 : i < w) (h2 : w < i + n) : w % n ≠ i % n := by
+  intro he
+  have h0 : (w - i) % n = 0 := Nat.sub_mod_eq_zero_of_mod_eq he
+  have hd : n ∣ w - i := Nat.dvd_of_mod_eq_zero h0
+  have := Nat.le_of_dvd (by omega) hd
+  omega
+
+/-- **C05 (a)**: in every reachable state, if the producer is about to write sequence `w` (`pc = write`, `w ≤ stop`) and a
+handler of any stage is about to handle / handling sequence `i` (`pc = handle`, `i ≤ avail`), then `i < w < i + n`; so
+the slot written (`w % n`) is not the slot read (`i % n`): no event is overwritten before every handler consumed it and no
+handler reads a slot while it is written. -/
+theorem c05_no_lap_reachable {x : PSt} (hr : Reachable x) (hw : x.p.pc = .write) (hww : x.p.w ≤ x.p.stop)
+    (k j : Nat) (hk : k < x.s.K) (hj : j < x.s.h k)
+    (hc : (x.s.cons k j).pc = .handle) (hi : (x.s.cons k j).i ≤ (x.s.cons k j).avail) :
+    (x.s.cons k j).i < x.p.w ∧ x.p.w < (x.s.cons k j).i + x.s.n ∧ x.p.w % x.s.n ≠ (x.s.cons k j).i % x.s.n := by
+  have := no_lap x (reachable_inv hr) hw hww k j hk hj hc hi
+  exact ⟨this.1, this.2, mod_ne_of_window this.1 this.2⟩
+
+/-- non-vacuity of (a): ring of 4, two batches; the producer is writing sequence 4 (second lap, slot 0) while the handler
+is handling sequence 1 (slot 1) -/
+def demoLap : PSt := runX (mk 4 1 (fun _ => 1) false [4, 1])
+  (List.replicate 8 Tid.prod ++ List.replicate 4 (Tid.cons 0 0) ++ List.replicate 2 Tid.prod)
+
+example : demoLap.p.pc = .write ∧ demoLap.p.w = 4 ∧ demoLap.p.stop = 4 ∧ (demoLap.s.cons 0 0).pc = .handle ∧
+    (demoLap.s.cons 0 0).i = 1 ∧ (demoLap.s.cons 0 0).avail = 3 := by decide +kernel
+
+/-! ## (b) a producer a full ring ahead blocks -/
+
+/-- one step of any thread: while some last-stage cursor `c` has `c + n < end` (`end` = `stop`, the highest sequence of the
+claim being made), the producer stays in the gate loop of `next`, writes nothing and publishes nothing -/
+theorem c05_full_ring_blocks {x : PSt} (hr : Reachable x) (hpc : x.p.pc = .gateCheck ∨ x.p.pc = .gateLoad)
+    (d : Nat) (hd : d < ngate x.s) (hfull : gate x.s d + x.s.n < x.p.stop) (t : Tid) :
+    ((stepX x t).p.pc = .gateCheck ∨ (stepX x t).p.pc = .gateLoad) ∧ (stepX x t).p.pc ≠ .write ∧
+    (stepX x t).p.written = x.p.written ∧ (stepX x t).p.stop = x.p.stop ∧ (stepX x t).s.cursor = x.s.cursor := by
+  obtain ⟨hI, hK, hP, hb⟩ := reachable_inv hr
+  have hmin := hP.minLe d hd
+  cases t with
+  | cons k j =>
+    simp only [stepX]; split
+    · rcases hpc with h | h <;> simp [h, stepC]
+    · rcases hpc with h | h <;> simp [h]
+  | prod =>
+    simp only [stepX]
+    rcases hpc with h | h
+    · have hlt : x.p.min + x.s.n < x.p.stop := by omega
+      simp [stepProd, h, hlt]
+    · simp only [stepProd, h]; split <;> simp
+
+/-- the same at the loop head, as a statement about the gate test itself: with a last-stage cursor a full ring behind, the
+test `min_sequence + buffer_size < end` of `next` succeeds (whatever stale minimum the producer holds — it is never above
+a real cursor), so the producer's step from `gateCheck` goes to `gateLoad` (re-read the gating sequences), never to `write` -/
+theorem c05_full_ring_gate_fails {x : PSt} (hr : Reachable x) (hpc : x.p.pc = .gateCheck)
+    (d : Nat) (hd : d < ngate x.s) (hfull : gate x.s d + x.s.n < x.p.stop) :
+    x.p.min + x.s.n < x.p.stop ∧ (stepProd x).p.pc = .gateLoad ∧ (stepProd x).p.claims = x.p.claims := by
+  obtain ⟨hI, hK, hP, hb⟩ := reachable_inv hr
+  have hmin := hP.minLe d hd
+  have hlt : x.p.min + x.s.n < x.p.stop := by omega
+  exact ⟨hlt, by simp [stepProd, hpc, hlt], by simp [stepProd, hpc, hlt]⟩
+
+theorem run_fixed (x : PSt) (sched : List Tid) (h : PInvAll x) :
+    (runX x sched).s.K = x.s.K ∧ (runX x sched).s.h = x.s.h ∧ (runX x sched).s.n = x.s.n ∧
+    ∀ d, gate x.s d ≤ gate (runX x sched).s d := by
+  unfold runX
+  induction sched generalizing x with
+  | nil => exact ⟨rfl, rfl, rfl, fun _ => Nat.le_refl _⟩
+  | cons t ts ih =>
+    obtain ⟨i1, i2, i3, i4⟩ := ih (stepX x t) (inv_stepX x t h)
+    simp only [List.foldl_cons]
+    have hstep : (stepX x t).s.K = x.s.K ∧ (stepX x t).s.h = x.s.h ∧ (stepX x t).s.n = x.s.n ∧
+        ∀ d, gate x.s d ≤ gate (stepX x t).s d := by
+      cases t with
+      | prod =>
+        obtain ⟨ec, eK, eh, en, _⟩ := cons_same_prod x
+        refine ⟨eK, eh, en, fun d => ?_⟩
+        show (x.s.cons (x.s.K - 1) d).cur ≤ ((stepProd x).s.cons ((stepProd x).s.K - 1) d).cur
+        rw [ec, eK]; exact Nat.le_refl _
+      | cons k j =>
+        simp only [stepX]; split
+        · rename_i hkj
+          exact ⟨rfl, rfl, rfl, fun d => gate_mono_stepC x.s k j hkj.1 hkj.2 h.1 d⟩
+        · exact ⟨rfl, rfl, rfl, fun _ => Nat.le_refl _⟩
+    obtain ⟨s1, s2, s3, s4⟩ := hstep
+    exact ⟨i1.trans s1, i2.trans s2, i3.trans s3, fun d => Nat.le_trans (s4 d) (i4 d)⟩
+
+/-- **C05 (b)**, along every schedule: if at the end of an arbitrary run some last-stage cursor `c` still has
+`c + n < end`, the producer — which was in its gate loop at the beginning — is still in it: it has had no enabled write
+step (nothing written, nothing published) during the whole run. A producer a full ring ahead blocks until the slowest
+last-stage handler advances. -/
+theorem c05_full_ring_blocks_run {x : PSt} (hr : Reachable x) (hpc : x.p.pc = .gateCheck ∨ x.p.pc = .gateLoad)
+    (sched : List Tid) (d : Nat) (hd : d < ngate x.s) (hfull : gate (runX x sched).s d + x.s.n < x.p.stop) :
+    ((runX x sched).p.pc = .gateCheck ∨ (runX x sched).p.pc = .gateLoad) ∧
+    (runX x sched).p.written = x.p.written ∧ (runX x sched).s.cursor = x.s.cursor := by
+  induction sched generalizing x with
+  | nil => exact ⟨hpc, rfl, rfl⟩
+  | cons t ts ih =>
+    have hrun : runX x (t :: ts) = runX (stepX x t) ts := rfl
+    rw [hrun] at hfull ⊢
+    have hinv := reachable_inv hr
+    obtain ⟨f1, f2, f3, f4⟩ := run_fixed (stepX x t) ts (inv_stepX x t hinv)
+    obtain ⟨g1, g2, g3, g4⟩ := run_fixed x [t] hinv
+    have hstep : runX x [t] = stepX x t := rfl
+    rw [hstep] at g1 g2 g3 g4
+    have hnow : gate x.s d + x.s.n < x.p.stop := by have := g4 d; have := f4 d; omega
+    obtain ⟨b1, _, b3, b4, b5⟩ := c05_full_ring_blocks hr hpc d hd hnow t
+    have hd' : d < ngate (stepX x t).s := by simpa [ngate, g1, g2] using hd
+    have := ih (reachable_step hr t) b1 hd' (by rw [g3, b4]; exact hfull)
+    exact ⟨this.1, this.2.1.trans b3, this.2.2.trans b5⟩
+
+/-- the load loop of `get_min_cursor_sequence`, run by the producer alone -/
+theorem gate_loop_solo (B : Nat) (r : Nat) : ∀ (x : PSt), x.p.pc = .gateLoad → x.p.idx + r = ngate x.s →
+    (∀ d, d < ngate x.s → B ≤ gate x.s d) → (∀ m, x.p.acc = some m → B ≤ m) → (0 < x.p.idx → x.p.acc.isSome) →
+    ∃ a', runX x (List.replicate r Tid.prod) = { x with p := { x.p with acc := a', idx := ngate x.s } } ∧
+          (∀ m, a' = some m → B ≤ m) ∧ (0 < ngate x.s → a'.isSome) := by
+  induction r with
+  | zero =>
+    intro x hpc hidx hg ha hs
+    refine ⟨x.p.acc, ?_, ha, fun h => hs (by omega)⟩
+    have hi : ngate x.s = x.p.idx := by omega
+    simp only [List.replicate_zero, runX, List.foldl_nil]
+    rw [hi]
+  | succ r ih =>
+    intro x hpc hidx hg ha hs
+    have hlt : x.p.idx < ngate x.s := by omega
+    have e : stepX x .prod = { x with p := { x.p with acc := minOpt x.p.acc (gate x.s x.p.idx), idx := x.p.idx + 1 } } := by
+      simp [stepX, stepProd, hpc, hlt]
+    have hrun : runX x (List.replicate (r + 1) Tid.prod) = runX (stepX x .prod) (List.replicate r Tid.prod) := rfl
+    rw [hrun, e]
+    obtain ⟨a', h1, h2, h3⟩ := ih { x with p := { x.p with acc := minOpt x.p.acc (gate x.s x.p.idx), idx := x.p.idx + 1 } }
+      hpc (by simp only; omega) hg
+      (by
+        intro m hm
+        cases hacc : x.p.acc with
+        | none => simp [hacc, minOpt] at hm; subst hm; exact hg _ hlt
+        | some m0 =>
+          simp [hacc, minOpt] at hm; subst hm
+          exact (Nat.le_min).2 ⟨ha m0 hacc, hg _ hlt⟩)
+      (fun _ => minOpt_isSome _ _)
+    exact ⟨a', h1, h2, h3⟩
+
+/-- **C05 (b), converse**: once every last-stage cursor `c` satisfies `end ≤ c + n` (the slowest last-stage handler has
+advanced far enough), the gate opens: running alone from the head of its gate loop the producer reaches the slot write
+of the first sequence of its claim after at most `ngate + 3` steps (one failed check on the stale cached minimum, one load
+per gating sequence, the minimum, the successful check). -/
+theorem c05_gate_opens {x : PSt} (hr : Reachable x) (hpc : x.p.pc = .gateCheck)
+    (hopen : ∀ d, d < ngate x.s → x.p.stop ≤ gate x.s d + x.s.n) :
+    ∃ m, m ≤ ngate x.s + 3 ∧ (runX x (List.replicate m Tid.prod)).p.pc = .write ∧
+      (runX x (List.replicate m Tid.prod)).p.w = x.p.start ∧ (runX x (List.replicate m Tid.prod)).p.stop = x.p.stop ∧
+      (runX x (List.replicate m Tid.prod)).p.written = x.p.written := by
+  obtain ⟨hI, hK, hP, hb⟩ := reachable_inv hr
+  have hgpos := ngate_pos x.s hI.1 hK
+  by_cases hlt : x.p.min + x.s.n < x.p.stop
+  · -- the cached minimum is stale: reload the gating sequences
+    let x1 : PSt := { x with p := { x.p with pc := .gateLoad, acc := none, idx := 0 } }
+    have e1 : stepX x .prod = x1 := by simp [stepX, stepProd, hpc, hlt, x1]
+    obtain ⟨a', h1, h2, h3⟩ := gate_loop_solo (x.p.stop - x.s.n) (ngate x.s) x1 rfl (by simp [x1, ngate])
+      (fun d hd => by have := hopen d hd; show x.p.stop - x.s.n ≤ gate x.s d; omega) (by simp [x1]) (by simp [x1])
+    have hsome := h3 hgpos
+    obtain ⟨mv, hmv⟩ := Option.isSome_iff_exists.mp hsome
+    have hB := h2 mv hmv
+    refine ⟨1 + ngate x.s + 1 + 1, by omega, ?_⟩
+    have hrun : runX x (List.replicate (1 + ngate x.s + 1 + 1) Tid.prod) =
+        stepX (stepX (runX (stepX x .prod) (List.replicate (ngate x.s) Tid.prod)) .prod) .prod := by
+      have hl : List.replicate (1 + ngate x.s + 1 + 1) Tid.prod =
+          [Tid.prod] ++ List.replicate (ngate x.s) Tid.prod ++ [Tid.prod] ++ [Tid.prod] := by
+        simp only [← List.replicate_append_replicate]; rfl
+      rw [hl]
+      simp only [runX, List.foldl_append, List.foldl_cons, List.foldl_nil]
+    rw [hrun, e1, h1]
+    have hge : ¬ (mv + x.s.n < x.p.stop) := by omega
+    simp [stepX, stepProd, x1, ngate, hmv, hge]
+  · exact ⟨1, by omega, by simp [runX, stepX, stepProd, hpc, hlt]⟩
+
+/-- non-vacuity of (b): ring of 2, batches 1, 2, 1 and a handler that has not run yet: the third claim has `end = 3`, the only
+gating cursor is 0 and `0 + 2 < 3` — the producer is in its gate loop -/
+def demoFull : PSt := runX (mk 2 1 (fun _ => 1) false [1, 2, 1]) (List.replicate 13 Tid.prod)
+
+example : (demoFull.p.pc = .gateLoad) ∧ demoFull.p.stop = 3 ∧ gate demoFull.s 0 + demoFull.s.n < demoFull.p.stop ∧
+    0 < ngate demoFull.s := by decide +kernel
+
+/-! ## (c) happens-before: every conflicting pair of slot accesses is ordered -/
+
+/-- the two facts about the source's memory orderings the proof of (c) rests on: every store of a sequence counter
+(`AtomicSequenceOrdered::set`) is at least `Release`, every load (`AtomicSequenceOrdered::get`) at least `Acquire`.
+`Gen/Orderings.lean` is regenerated from `atomic_sequence_ordered.rs` on every run — weakening either ordering there
+makes this theorem (and nothing else in the development) fail. -/
+theorem c05_orderings_used : seqSet.isRelease = true ∧ seqGet.isAcquire = true := by decide
+
+/-- a state (system + clocks) reachable in a well-formed single-producer pipeline with the orderings of the source: any
+ring size, topology, wait strategy, batch list, **any schedule** -/
+def HReachable (s : HSt) : Prop :=
+  ∃ (n K : Nat) (h : Nat → Nat) (blocking : Bool) (batches : List Nat) (sched : List Tid),
+    0 < K ∧ (∀ k, k < K → 0 < h k) ∧ (∀ b, b ∈ batches → 1 ≤ b) ∧ s = runSrc (mkH n K h blocking batches) sched
+
+/-- the clocks are ghost state: the system component of a clocked run is the plain run of `Model/Ring.lean`, so
+`HReachable` projects onto `Ring.Reachable` and every `Ring.Reachable` state is the projection of an `HReachable` one -/
+theorem c05_clocks_are_ghost (n K : Nat) (h : Nat → Nat) (blocking : Bool) (batches : List Nat) (sched : List Tid) :
+    (runSrc (mkH n K h blocking batches) sched).x = runX (mk n K h blocking batches) sched :=
+  runH_x seqSet seqGet _ sched
+
+theorem hreachable_x {s : HSt} (hr : HReachable s) : Reachable s.x := by
+  obtain ⟨n, K, h, bl, bs, sched, hK, hh, hb, rfl⟩ := hr
+  exact ⟨n, K, h, bl, bs, sched, hK, hh, hb, c05_clocks_are_ghost n K h bl bs sched⟩
+
+theorem reachable_lifts {x : PSt} (hr : Reachable x) : ∃ s, HReachable s ∧ s.x = x := by
+  obtain ⟨n, K, h, bl, bs, sched, hK, hh, hb, rfl⟩ := hr
+  exact ⟨_, ⟨n, K, h, bl, bs, sched, hK, hh, hb, rfl⟩, c05_clocks_are_ghost n K h bl bs sched⟩
+
+/-- the clock invariant holds in every reachable state -/
+theorem c05_hb_invariant {s : HSt} (hr : HReachable s) : HGood s := by
+  obtain ⟨n, K, h, bl, bs, sched, hK, hh, hb, rfl⟩ := hr
+  exact hgood_run seqSet seqGet c05_orderings_used.1 c05_orderings_used.2 _ sched (hgood_init n K h bl bs hK hh hb)
+
+/-- **C05 (c)**: for every ring size, topology, batch list, wait strategy and schedule, with the orderings the source
+uses, the obligations R1–R4 hold before every slot access:
+* reader (`RaceFree.reader`): a handler `(k,j)` about to handle sequence `i` knows the producer's write of `i`
+  (R1: write → read), every access of `i` by every handler of every earlier stage (R2: earlier-stage access, possibly a
+  mutation → later-stage access), and everybody's access of `i − n`, the previous occupant of the slot (R4);
+* writer (`RaceFree.writer`): the producer about to write `w` knows everybody's access of `w − n` (R3: read → overwrite);
+  write/write pairs are ordered by the producer's program order.
+So every pair of conflicting accesses to one slot — except pairs inside one stage, see (e) — is ordered by the
+happens-before relation the sequence counters establish. -/
+theorem c05_race_free_reachable {s : HSt} (hr : HReachable s) : RaceFree s := by
+  have := c05_hb_invariant hr
+  exact raceFree_of_inv s this.1 this.2
+
+/-- (c) spelled out for a handler: R1, R2, R4 as inequalities on its clock -/
+theorem c05_reader_knows {s : HSt} (hr : HReachable s) (k j : Nat) (hk : k < s.x.s.K) (hj : j < s.x.s.h k)
+    (hpc : (s.x.s.cons k j).pc = .handle) (hi : (s.x.s.cons k j).i ≤ (s.x.s.cons k j).avail) :
+    (s.x.s.cons k j).i + 1 ≤ (s.vcC k j).pw ∧
+    (∀ k' j', k' < k → j' < s.x.s.h k' → (s.x.s.cons k j).i ≤ (s.vcC k j).ha k' j') ∧
+    (∀ k' j', k' < s.x.s.K → j' < s.x.s.h k' → (s.x.s.cons k j).i ≤ (s.vcC k j).ha k' j' + s.x.s.n) := by
+  have hc := (c05_race_free_reachable hr).reader k j hk hj hpc hi
+  have hinv := (c05_hb_invariant hr).1
+  have hci := hinv.1.2 k j hk hj
+  have h1 := hci.iGe hpc
+  have h2 := hci.nextEq (by simp [hpc])
+  exact ⟨hc.pw (by omega), fun k' j' hk' hj' => hc.prev k' j' hk' (by omega) hj', hc.old⟩
+
+/-- non-vacuity of (c): two stages, ring of 2, the ring wraps: the second-stage handler is about to handle sequence 3
+(slot 1, previously holding sequence 1) and the producer is about to write sequence 4 (slot 0, previously 2) -/
+def demoHB : HSt := runSrc (mkH 2 2 (fun _ => 1) false [1, 1, 1, 1, 1])
+  (List.replicate 10 Tid.prod ++ List.replicate 8 (Tid.cons 0 0) ++ List.replicate 8 (Tid.cons 1 0) ++
+   List.replicate 10 Tid.prod ++ List.replicate 8 (Tid.cons 0 0) ++ List.replicate 8 (Tid.cons 1 0) ++
+   List.replicate 8 Tid.prod ++ List.replicate 9 (Tid.cons 0 0) ++ List.replicate 6 (Tid.cons 1 0))
+
+example : (demoHB.x.s.cons 1 0).pc = .handle ∧ (demoHB.x.s.cons 1 0).i = 3 ∧ (demoHB.x.s.cons 1 0).avail = 3 ∧
+    (demoHB.vcC 1 0).pw = 4 ∧ (demoHB.vcC 1 0).ha 0 0 = 3 ∧ (demoHB.vcC 1 0).ha 1 0 = 2 ∧
+    demoHB.x.p.pc = .write ∧ demoHB.x.p.w = 4 ∧ demoHB.x.p.stop = 4 ∧ demoHB.vcP.ha 1 0 = 2 ∧ demoHB.vcP.ha 0 0 = 2 := by
+  decide +kernel
+
+/-! ## (d) the ordering table is load-bearing -/
+
+/-- the schedule "producer writes and publishes a batch of two, then the handler waits for it" with a **Relaxed** cursor
+store (everything else as in the source) -/
+def relaxedStoreRun : HSt :=
+  runH .relaxed seqGet (mkH 4 1 (fun _ => 1) false [2]) (List.replicate 6 Tid.prod ++ List.replicate 4 (Tid.cons 0 0))
+
+/-- **C05 (d)**: were `AtomicSequenceOrdered::set` a `Relaxed` store, the handler would be about to read slot 1 without
+knowing the producer's write of it (its clock entry for the producer is 0): the reader obligation R1 fails on a concrete
+schedule. This is also the replay the check produces when the ordering is weakened in the source. -/
+theorem c05_relaxed_store_races : ¬ RaceFree relaxedStoreRun := by
+  intro h
+  have hk : 0 < relaxedStoreRun.x.s.K := by decide +kernel
+  have hj : 0 < relaxedStoreRun.x.s.h 0 := by decide +kernel
+  have hpc : (relaxedStoreRun.x.s.cons 0 0).pc = .handle := by decide +kernel
+  have hi : (relaxedStoreRun.x.s.cons 0 0).i ≤ (relaxedStoreRun.x.s.cons 0 0).avail := by decide +kernel
+  have h1 := (h.reader 0 0 hk hj hpc hi).pw (by decide +kernel)
+  revert h1
+  decide +kernel
+
+/-- the same with a **Relaxed** cursor load (`AtomicSequenceOrdered::get`) -/
+def relaxedLoadRun : HSt :=
+  runH seqSet .relaxed (mkH 4 1 (fun _ => 1) false [2]) (List.replicate 6 Tid.prod ++ List.replicate 4 (Tid.cons 0 0))
+
+theorem c05_relaxed_load_races : ¬ RaceFree relaxedLoadRun := by
+  intro h
+  have hk : 0 < relaxedLoadRun.x.s.K := by decide +kernel
+  have hj : 0 < relaxedLoadRun.x.s.h 0 := by decide +kernel
+  have hpc : (relaxedLoadRun.x.s.cons 0 0).pc = .handle := by decide +kernel
+  have hi : (relaxedLoadRun.x.s.cons 0 0).i ≤ (relaxedLoadRun.x.s.cons 0 0).avail := by decide +kernel
+  have h1 := (h.reader 0 0 hk hj hpc hi).pw (by decide +kernel)
+  revert h1
+  decide +kernel
+
+/-- the same schedule with the orderings of the source: the handler knows both writes -/
+def releaseRun : HSt :=
+  runSrc (mkH 4 1 (fun _ => 1) false [2]) (List.replicate 6 Tid.prod ++ List.replicate 4 (Tid.cons 0 0))
+
+example : (releaseRun.x.s.cons 0 0).pc = .handle ∧ (releaseRun.x.s.cons 0 0).i = 1 ∧ (releaseRun.vcC 0 0).pw = 2 ∧
+    (relaxedStoreRun.x.s.cons 0 0).pc = .handle ∧ (relaxedStoreRun.x.s.cons 0 0).i = 1 ∧
+    (relaxedStoreRun.x.s.cons 0 0).avail = 1 ∧ (relaxedStoreRun.vcC 0 0).pw = 0 ∧ (relaxedLoadRun.vcC 0 0).pw = 0 := by
+  decide +kernel
+
+/-! ## (e) topology hypothesis: same-stage handlers are unordered (F9) -/
+
+/-- one stage with two handlers, ring of 4, one batch of two; handler `(0,1)` has handled sequence 1, handler `(0,0)` is
+about to -/
+def sameStageRun : HSt :=
+  runSrc (mkH 4 1 (fun _ => 2) false [2])
+    (List.replicate 6 Tid.prod ++ List.replicate 4 (Tid.cons 0 0) ++ List.replicate 5 (Tid.cons 0 1))
+
+/-- **C05 (e), F9**: in a reachable state (orderings of the source) handler `(0,0)` is about to access the slot of
+sequence 1, handler `(0,1)` of the same stage has already accessed it, and `(0,0)` does not know that access — nor the
+other way round: the two accesses are not ordered by happens-before. If one of the two handlers is mutable this is a
+data race on the slot (`BarrierScope::handle_events_mut` puts no sequence counter between handlers of one stage); if
+both are immutable the accesses are two reads and do not conflict. Hence the topology hypothesis of C05: a stage that
+contains a mutable handler contains only that handler. -/
+theorem c05_same_stage_unordered :
+    HReachable sameStageRun ∧
+    (sameStageRun.x.s.cons 0 0).pc = .handle ∧ (sameStageRun.x.s.cons 0 0).i = 1 ∧ (sameStageRun.x.s.cons 0 0).avail = 1 ∧
+    (sameStageRun.x.s.cons 0 1).log = [1] ∧ (sameStageRun.vcC 0 1).ha 0 1 = 1 ∧
+    (sameStageRun.vcC 0 0).ha 0 1 = 0 ∧ (sameStageRun.vcC 0 1).ha 0 0 = 0 := by
+  refine ⟨⟨4, 1, fun _ => 2, false, [2], _, by decide, fun _ _ => Nat.zero_lt_two, by decide, rfl⟩, ?_⟩
+  decide +kernel
+
 end C05
